@@ -427,6 +427,16 @@ func Exec(c vh.Case, o *vh.Out, mon Monitors) {
 	var al verifcid.Allowlist = verifcid.DefaultAllowlist
 	alToks := []string{"dflt"}
 	var raw blockstore.Blockstore
+	// two block services per case; raw / rs / ex / bs always denote the one the current op is addressed to
+	type service struct {
+		raw blockstore.Blockstore
+		rs  *recStore
+		ex  *exch
+		bs  blockservice.BlockService
+	}
+	var svcA, svcB service
+	onB := false
+	var otherEx *exch // the exchange of the service the op is NOT addressed to (scripted with the same answers)
 	var bs blockservice.BlockService
 	var ex *exch
 
@@ -510,7 +520,31 @@ func Exec(c vh.Case, o *vh.Out, mon Monitors) {
 	}
 	sessions := map[string]*blockservice.Session{}
 	sesCtxs := map[string]context.Context{}
+	ctxOfA := func(mode string) context.Context { // context with a session embedded for the FIRST service
+		if sesCtxs[mode] == nil {
+			sesCtxs[mode] = blockservice.ContextWithSession(ctx, svcA.bs)
+			o.Kind("persistent-session")
+		}
+		return sesCtxs[mode]
+	}
 	getter := func(mode string) (blockservice.BlockGetter, context.Context) {
+		if onB {
+			// calls on the second service: with a context that carries the first one's session (must be ignored:
+			// the context key is the BlockService), or with B's own session embedded on top of that
+			switch {
+			case strings.HasPrefix(mode, "C"):
+				o.Kind("two-services-shared-context")
+				return bs, ctxOfA(mode)
+			case strings.HasPrefix(mode, "X"):
+				k := "B:" + mode
+				if sesCtxs[k] == nil {
+					sesCtxs[k] = blockservice.ContextWithSession(ctxOfA("C"+mode[1:]), bs)
+				}
+				o.Kind("two-services-shared-context")
+				return bs, sesCtxs[k]
+			}
+			return bs, ctx
+		}
 		switch {
 		case mode == "s":
 			return blockservice.NewSession(ctx, bs), ctx
@@ -523,14 +557,10 @@ func Exec(c vh.Case, o *vh.Out, mon Monitors) {
 			}
 			return sessions[mode], ctx
 		case strings.HasPrefix(mode, "C"): // a context with an embedded session that lives across ops
-			if sesCtxs[mode] == nil {
-				sesCtxs[mode] = blockservice.ContextWithSession(ctx, bs)
-				o.Kind("persistent-session")
-			}
 			if strings.HasSuffix(mode, "0") {
-				return bs, sesCtxs[mode]
+				return bs, ctxOfA(mode)
 			}
-			return blockservice.NewSession(sesCtxs[mode], bs), sesCtxs[mode] // NewSession reuses the embedded one
+			return blockservice.NewSession(ctxOfA(mode), bs), ctxOfA(mode) // NewSession reuses the embedded one
 		}
 		return bs, ctx
 	}
@@ -545,6 +575,27 @@ func Exec(c vh.Case, o *vh.Out, mon Monitors) {
 		if f[0] != "cfg" && f[0] != "vrow" && f[0] != "al" && bs == nil {
 			o.Emit("bad-op")
 			continue
+		}
+		// ops addressed to the second block service
+		onB = false
+		if bs != nil && len(f) > 1 {
+			switch {
+			case f[0] == "badd":
+				onB, f[0] = true, "add"
+			case f[0] == "bpeek":
+				onB, f[0] = true, "peek"
+			case (f[0] == "get" || f[0] == "getmany") && strings.HasPrefix(f[1], "B:"):
+				onB = true
+				f[1] = f[1][2:]
+			}
+		}
+		if onB {
+			raw, rs, ex, bs = svcB.raw, svcB.rs, svcB.ex, svcB.bs
+			otherEx = svcA.ex
+			o.Kind("second-service")
+		} else if bs != nil {
+			raw, rs, ex, bs = svcA.raw, svcA.rs, svcA.ex, svcA.bs
+			otherEx = svcB.ex
 		}
 		switch f[0] {
 		case "cfg":
@@ -562,6 +613,21 @@ func Exec(c vh.Case, o *vh.Out, mon Monitors) {
 			rs = &recStore{Blockstore: raw, r: r, t: tab, onIO: onIO, polluted: map[string]bool{}, failAt: -1, rfailAt: -1}
 			bs = blockservice.New(rs, exi,
 				blockservice.WithAllowlist(al), blockservice.WriteThrough(f[1] == "0"))
+			// the second block service "B": same configuration, its own blockstore and exchange
+			svcA = service{raw, rs, ex, bs}
+			rawB := blockstore.NewBlockstore(dssync.MutexWrap(ds.NewMapDatastore()))
+			exB := &exch{r: r, t: tab, onIO: onIO, notifyOK: -1}
+			var exiB exchange.Interface
+			switch f[2] {
+			case "1":
+				exiB = exB
+			case "2":
+				exiB = sesExch{exB}
+			}
+			rsB := &recStore{Blockstore: rawB, r: r, t: tab, onIO: onIO, polluted: map[string]bool{}, failAt: -1, rfailAt: -1}
+			svcB = service{rawB, rsB, exB, blockservice.New(rsB, exiB,
+				blockservice.WithAllowlist(al), blockservice.WriteThrough(f[1] == "0"))}
+			sessions, sesCtxs = map[string]*blockservice.Session{}, map[string]context.Context{}
 			o.Kind("ex" + f[2])
 			o.Kind("al-" + f[3])
 			o.Emit("ok")
@@ -630,6 +696,9 @@ func Exec(c vh.Case, o *vh.Out, mon Monitors) {
 				ex.notifyOK = 0
 			}
 			nsBefore, rs.readFailed = ex.newSessions, false
+			if otherEx != nil { // the other service's exchange would answer the same: a misrouted call still "works"
+				otherEx.one, otherEx.notifyOK = ex.one, ex.notifyOK
+			}
 			g, gctx := getter(f[1])
 			b, err := g.GetBlock(gctx, k)
 			ex.notifyOK = -1
@@ -668,6 +737,9 @@ func Exec(c vh.Case, o *vh.Out, mon Monitors) {
 				ex.notifyOK = vh.Atoi(f[2])
 			}
 			nsBefore, rs.readFailed = ex.newSessions, false
+			if otherEx != nil {
+				otherEx.many, otherEx.manyErr, otherEx.notifyOK = ex.many, ex.manyErr, ex.notifyOK
+			}
 			g, gctx := getter(f[1])
 			var got []blocks.Block
 			nex := 0
